@@ -10,26 +10,30 @@ RULE = ("cells = maximal behaviours of CryptoBinding.tla for the scheme (every t
         "(scheme, plen, ops) tuples")
 
 
-SCHEMES = {"cmdsig": ["cmdsig"], "wrap": ["wrap"], "afcuni": ["afcuni"],
+SCHEMES = {"cmdsig": ["cmdsig"], "cmdsig_big": ["cmdsig"], "wrap": ["wrap"], "afcuni": ["afcuni"],
            "enc": ["groupkey", "sealedgk", "pskseed", "topicmsg", "sealedtopic"]}
 
 
-def write_cfg(ctx, group, max_tamper, plens, model="tuple", emit=True):
+BIG_DATA = (1, 4096, 4097, 70000)
+
+
+def write_cfg(ctx, group, max_tamper, plens, model="tuple", emit=True, datalens=(0,)):
     """Thorough-tier configs are generated into the work dir (only constants differ from tla/MC_*.cfg)."""
     name = "MC_CryptoBinding_%s_%s_%d.cfg" % (group, model, max_tamper)
     path = os.path.join(ctx.workdir, name)
     with open(path, "w") as f:
         f.write("SPECIFICATION Spec\nCONSTANTS\n  Schemes = {%s}\n  MaxTamper = %d\n  HashModel = \"%s\"\n"
-                "  PLens = {%s}\nINVARIANTS AcceptIffUnchanged IdAgreement NoBothEnds OnlyRightful%s\nCHECK_DEADLOCK FALSE\n"
+                "  PLens = {%s}\n  DataLens = {%s}\nINVARIANTS AcceptIffUnchanged IdAgreement NoBothEnds OnlyRightful%s\nCHECK_DEADLOCK FALSE\n"
                 % (", ".join('"%s"' % s for s in SCHEMES[group]), max_tamper, model,
-                   ", ".join(str(p) for p in plens), " Emit" if emit else ""))
+                   ", ".join(str(p) for p in plens), ", ".join(str(p) for p in datalens),
+                   " Emit" if emit else ""))
     return os.path.relpath(path, verif.TLA)
 
 
-def cells_for(ctx, scheme, plens=(0,), thorough_depth=3):
+def cells_for(ctx, scheme, plens=(0,), thorough_depth=3, datalens=(0,)):
     """TLC-enumerated cells of one scheme for the tier."""
     if ctx.thorough:
-        cfg = write_cfg(ctx, scheme, thorough_depth, plens)
+        cfg = write_cfg(ctx, scheme, thorough_depth, plens, datalens=datalens)
     else:
         cfg = "MC_CryptoBinding_%s.cfg" % scheme
     r = ctx.tlc("CryptoBinding", cfg, timeout=1500, tag="cb-" + scheme)
